@@ -8,33 +8,78 @@ open ClockBound
 
 /-- total characterisation, all leap codes, all intervals, all reference times -/
 theorem classify_eq (t : Tracking) (now : Int) : classify t now = expected t now := by
-  sorry
+  unfold classify expected
+  simp only [timeout_eq]
+  by_cases h1 : t.refNs > now
+  · rw [if_pos h1, if_pos (show now < t.refNs by omega)]
+  · rw [if_neg h1, if_neg (show ¬ now < t.refNs by omega)]
+    rcases leapClass_cases t.leap with ⟨hl, hc⟩ | ⟨hl, hc⟩ | ⟨hl, hc⟩
+    · rw [hc, if_neg (show ¬ t.leap ≥ 4 by omega), if_neg (show ¬ t.leap = 3 by omega)]
+    · rw [hc, if_neg (show ¬ t.leap ≥ 4 by omega), if_pos hl]
+    · rw [hc, if_pos hl]
 
 /-- the threshold never exceeds eight update intervals (it is their whole-second truncation) -/
 theorem threshold_le (t : Tracking) :
     (thresholdSecs t : Rat) ≤ max 0 (8 * F64.chronyFloat t.intervalW) := by
-  sorry
+  have hf := F64.floor_le' (F64.chronyFloat t.intervalW * 8)
+  have e : C10.thresholdSecs t =
+      (if (F64.chronyFloat t.intervalW * 8).floor < 0 then 0
+       else if (F64.chronyFloat t.intervalW * 8).floor > 18446744073709551615 then 18446744073709551615
+       else (F64.chronyFloat t.intervalW * 8).floor) := rfl
+  rw [e]
+  generalize (F64.chronyFloat t.intervalW * 8).floor = x at hf
+  rw [le_max_iff]
+  split_ifs with h1 h2
+  · left; norm_num
+  · right
+    have : ((18446744073709551615 : Int) : ℚ) ≤ (x : ℚ) := by exact_mod_cast h2.le
+    linarith
+  · right; linarith
 
 theorem synchronized_only_if (t : Tracking) (now : Int) (h : classify t now = .synchronized) :
     t.leap ≤ 2 ∧ t.refNs ≤ now ∧
     ((now - t.refNs : Int) : Rat) ≤ max 0 (8 * F64.chronyFloat t.intervalW) * 1000000000 := by
-  sorry
+  rw [classify_eq] at h
+  unfold expected at h
+  split_ifs at h with h1 h2 h3 h4
+  refine ⟨by omega, by omega, ?_⟩
+  have h5 : ((now - t.refNs : Int) : ℚ) ≤ ((thresholdSecs t * 1000000000 : Int) : ℚ) := by
+    exact_mod_cast not_lt.mp h4
+  have h6 := threshold_le t
+  push_cast at h5
+  calc ((now - t.refNs : Int) : ℚ) ≤ (thresholdSecs t : ℚ) * 1000000000 := by push_cast; exact h5
+    _ ≤ max 0 (8 * F64.chronyFloat t.intervalW) * 1000000000 :=
+      mul_le_mul_of_nonneg_right h6 (by norm_num)
 
 theorem stale_or_leap3_freeRunning (t : Tracking) (now : Int) (hn : t.refNs ≤ now)
     (h : t.leap = 3 ∨ (t.leap ≤ 2 ∧ now - t.refNs > thresholdSecs t * 1000000000)) :
     classify t now = .freeRunning := by
-  sorry
+  rw [classify_eq]
+  unfold expected
+  rw [if_neg (show ¬ now < t.refNs by omega)]
+  rcases h with h | ⟨h1, h2⟩
+  · rw [if_neg (show ¬ t.leap ≥ 4 by omega), if_pos h]
+  · rw [if_neg (show ¬ t.leap ≥ 4 by omega), if_neg (show ¬ t.leap = 3 by omega), if_pos h2]
 
 theorem other_unknown (t : Tracking) (now : Int) (h : now < t.refNs ∨ t.leap ≥ 4) :
     classify t now = .unknown := by
-  sorry
+  rw [classify_eq]
+  unfold expected
+  rcases h with h | h
+  · rw [if_pos h]
+  · split_ifs <;> rfl
 
 theorem fresh_synchronized (t : Tracking) (now : Int) (hl : t.leap ≤ 2) (hn : t.refNs ≤ now)
     (h : now - t.refNs ≤ thresholdSecs t * 1000000000) : classify t now = .synchronized := by
-  sorry
+  rw [classify_eq]
+  unfold expected
+  rw [if_neg (show ¬ now < t.refNs by omega), if_neg (show ¬ t.leap ≥ 4 by omega),
+    if_neg (show ¬ t.leap = 3 by omega), if_neg (not_lt.mpr h)]
 
 theorem model_holds (t : Tracking) (now : Int) : Holds t now (classify t now) = true := by
-  sorry
+  unfold Holds
+  rw [classify_eq]
+  exact ChronyStatus.beq_self _
 
 example : classify { leap := 1, refNs := 100, offW := 0, dispW := 0, delayW := 0, intervalW := 0x0b000000 } 100 = .synchronized := by decide +kernel
 
